@@ -90,7 +90,9 @@ func (s *JavaAPIListener) EnterAnnotation(ctx *parser.AnnotationContext) {
 	}
 
 	if !hasEnterClass {
+		// an annotation in front of the class declaration can give the base path; it never starts an API entry
 		buildBaseApiUrlString(annotationName, ctx)
+		return
 	}
 
 	notAPI := annotationName == "RequestMapping" || annotationName == "GetMapping" || annotationName == "PutMapping" || annotationName == "PostMapping" || annotationName == "DeleteMapping"
